@@ -225,9 +225,68 @@ def run(model, col, tier):
         if "__Replace" in seq and "ReplaceUses" in seq:
             col.check(seq.index("ReplaceUses") < seq.index("__Replace"), "R02.3", f"{IR}::BasicBlock._Traverse rewires before it removes",
                       f"order {seq}", f"order {seq}: instructions are removed before their uses are rewired (the reference to fix up is gone)", IR, tr)
+    # the deferred work is actually applied: whenever a pending table is non-empty, the path through _Traverse hands that very table
+    # to the function-level ReplaceUses (uses table first; replacements after the instructions were swapped)
+    def _const_fold(t_):
+        return bool(t_.value) if isinstance(t_, ast.Constant) else None
+
+    tables = sorted({n.targets[0].value.attr for m_ in (ru, bb.own_method("Replace")) for n in ast.walk(m_)
+                     if isinstance(n, ast.Assign) and isinstance(n.targets[0], ast.Subscript) and isinstance(n.targets[0].value, ast.Attribute)})
+    col.floor("R02.3", "pending tables of BasicBlock", len(tables), 2)
+    for tb in tables:
+        applied_always = True
+        seen_nonempty = False
+        for evs, status in paths(tr.body, fold=_const_fold):
+            if status == "raise":
+                continue
+            atoms = cond_atoms(evs)
+            if atoms.get(f"self.{tb}") is False:
+                continue  # nothing pending in this table on this path
+            seen_nonempty = True
+            handed = [c for c in calls_on_path(evs) if last_attr(c) == "ReplaceUses" and isinstance(c.func, ast.Attribute) and "Parent" in unparse(c.func.value)
+                      and c.args and unparse(c.args[0]) == f"self.{tb}"]
+            if not handed:
+                applied_always = False
+        col.check(seen_nonempty and applied_always, "R02.3", f"{IR}::BasicBlock._Traverse applies {tb}", f"a non-empty `{tb}` is always handed to the function's ReplaceUses",
+                  f"there is a path through _Traverse on which `{tb}` can be non-empty but is not handed to self.Parent.ReplaceUses: users keep naming instructions that were forwarded / replaced / removed", IR, tr)
     t = unparse(tr)
     col.check(t.count("self.__replacements = {}") >= 1 and t.count("self.__replaceUses = {}") >= 1, "R02.3", f"{IR}::BasicBlock._Traverse resets pending maps", "pending maps are per traversal", None, IR, tr)
     rp = bb.find_method("__Replace")
+    if rp:
+        # every instruction that is not replaced, and every replacing *instruction*, ends up in the new list
+        for lp_ in [n for n in ast.walk(rp[1]) if isinstance(n, ast.For)]:
+            tg_ = unparse(lp_.target)
+            okp = True
+            why_ = ""
+            for evs, status in paths(lp_.body, loop_iters=(1,)):
+                atoms = cond_atoms(evs)
+                apps = [unparse(c.args[0]) for c in calls_on_path(evs) if last_attr(c) == "append" and c.args]
+                replaced = next((v for k, v in atoms.items() if k.startswith(f"{tg_}.Reference in ")), None)
+                isinstr = next((v for k, v in atoms.items() if k.startswith("isinstance(") and k.endswith(", Instruction)")), None)
+                if replaced is False and apps != [tg_]:
+                    okp, why_ = False, f"an instruction that is not replaced is not kept (appends {apps})"
+                if replaced is True and isinstr is True and len(apps) != 1:
+                    okp, why_ = False, f"a replacing instruction is not put in the old one's place (appends {apps})"
+                if replaced is True and isinstr is False and apps:
+                    okp, why_ = False, f"a slot replaced by a non-instruction is kept (appends {apps})"
+            col.check(okp, "R02.3", f"{IR}::BasicBlock.__Replace keeps / swaps / drops", "unreplaced instructions stay, replacing instructions take the slot, other replacements empty it",
+                      why_ + ": the block loses or duplicates instructions when a pass replaces one", IR, lp_)
+    # the function-level use table is rebuilt from all blocks, and refreshed after every batch of rewrites
+    fu = model.cls(IR, "Function").own_method("UpdateUses")
+    rebuilt = False
+    for lp_ in [n for n in ast.walk(fu) if isinstance(n, ast.For)]:
+        tg_ = unparse(lp_.target)
+        calls_ = [c for s_ in lp_.body for c in ast.walk(s_) if isinstance(c, ast.Call)]
+        upd_i = next((i for i, c in enumerate(calls_) if last_attr(c) == "UpdateUses" and unparse(c.func.value) == tg_), None)
+        mrg_i = next((i for i, c in enumerate(calls_) if last_attr(c) in ("update",) and c.args and unparse(c.args[0]).startswith(tg_ + ".")), None)
+        if "BasicBlocks" in unparse(lp_.iter) or "basicBlocks" in unparse(lp_.iter):
+            rebuilt = upd_i is not None and mrg_i is not None and not any(isinstance(x, (ast.If, ast.Continue, ast.Break)) for s_ in lp_.body for x in ast.walk(s_))
+    fresh_tbl = any(isinstance(n, ast.Assign) and isinstance(n.targets[0], ast.Attribute) and "uses" in n.targets[0].attr.lower() for n in fu.body)
+    col.check(rebuilt and fresh_tbl, "R02.3", f"{IR}::Function.UpdateUses rebuilds the use table", "fresh table; every block recomputes its uses and they are merged",
+              "Function.UpdateUses does not rebuild the use table from every block (fresh table, bb.UpdateUses(), merge of bb.Uses): rewrites look users up in a stale or empty table", IR, fu)
+    fr_last = [s_ for s_ in fr.body if not (isinstance(s_, ast.Expr) and isinstance(s_.value, ast.Constant))][-1]
+    col.check(isinstance(fr_last, ast.Expr) and isinstance(fr_last.value, ast.Call) and last_attr(fr_last.value) == "UpdateUses", "R02.3", f"{IR}::Function.ReplaceUses refreshes the use table",
+              "ends with self.UpdateUses()", "after a batch of rewrites the use table is not recomputed: the next batch rewires the users of the old operands", IR, fr)
     if rp:
         s = unparse(rp[1])
         col.check("newInstruction.SetReference(instruction.Reference)" in s and "isinstance(newInstruction, Instruction)" in s, "R02.3", f"{IR}::BasicBlock.__Replace",
